@@ -101,7 +101,11 @@ Eval(p, monad) ==
     [] p.k = "rec"   -> \* Recover* / OrElse* / Or*: successes untouched, the handler runs only on failure
          LET r == Eval(p.arg, monad) IN
          IF r.ok THEN r
-         ELSE LET h == Norm(monad, Cont(p.kk.c, <<7>>)) IN WithLog(h, Append(r.log, p.kk.id))
+         \* (the isDefinedAt predicate of RecoverCase / RecoverCaseWith is a user callback too: it is consulted on a failure,
+         \*  before the handler, and never on a success; it is logged as kk.id + 500)
+         ELSE LET h == Norm(monad, Cont(p.kk.c, <<7>>))
+                  pre == IF p.name \in {"RecoverCase", "RecoverCaseWith"} THEN <<p.kk.id + 500>> ELSE <<>>
+              IN WithLog(h, r.log \o pre \o <<p.kk.id>>)
     [] p.k = "panic" -> \* try.Of / Call / CallUnit: a panic becomes a Failure exposing the panic value, a normal return a Success
          CASE p.mode = "panic" -> WithLog(Fail("panic:" \o p.pv), <<p.id>>)
            [] p.mode = "err"   -> WithLog(Fail("e1"), <<p.id>>)
